@@ -45,6 +45,8 @@ def main():
     for m in missing[:40]:
         print("REGRESSION", m)
     subprocess.run(["rm", "-rf", out])
+    # the suite writes checkpoints into the working tree: never leave them around to be committed by accident
+    subprocess.run(["git", "-C", "/repo", "clean", "-fdq", "--", "models", "tests", "test_dir", "checkpoints", "saved_checkpoints"], capture_output=True)
     return 1 if missing else 0
 
 if __name__ == "__main__":
